@@ -348,3 +348,47 @@ func (s serialPort) Write(p []byte) (int, error) { return s.c.Write(p) }
 func (s serialPort) Close() error                { return s.c.Close() }
 
 var _ io.ReadWriteCloser = serialPort{}
+
+// `connrace <n>`: n goroutines call Connect and Close on ONE client built by NewTCPClient() - the default dialer,
+// which a harness that always injects its own dial function never reaches - against a loopback listener.
+// The outcome is "ok" unless something panics; the point of the operation is the run under the race detector.
+func execConnRace(ts []string) string {
+	n := atoi(ts[1])
+	ln, err := net.Listen("tcp", "127.0.0.1:0")
+	if err != nil {
+		return "e-listen"
+	}
+	defer ln.Close()
+	go func() {
+		for {
+			c, err := ln.Accept()
+			if err != nil {
+				return
+			}
+			_ = c.Close()
+		}
+	}()
+	c := modbus.NewTCPClient()
+	var wg sync.WaitGroup
+	var panicked atomic.Bool
+	for i := 0; i < n; i++ {
+		wg.Add(1)
+		go func() {
+			defer wg.Done()
+			defer func() {
+				if r := recover(); r != nil {
+					panicked.Store(true)
+				}
+			}()
+			for k := 0; k < 3; k++ {
+				_ = c.Connect(context.Background(), ln.Addr().String())
+				_ = c.Close()
+			}
+		}()
+	}
+	wg.Wait()
+	if panicked.Load() {
+		return "PANIC"
+	}
+	return "ok"
+}
